@@ -58,6 +58,15 @@ class VFModel(Model):
         if self.call_log is not None:
             self.call_log.append(np.array(x, copy=True).reshape(-1))
         if self.kill_after is not None and self.points >= self.kill_after:
+            if getattr(self, "kill_signal", None):
+                # the process receives a termination signal while the
+                # likelihood is being evaluated: nessai's own handler runs
+                import signal as _signal
+
+                sig = getattr(_signal, self.kill_signal)
+                self.kill_after = None
+                os.kill(os.getpid(), sig)
+                return
             if self.kill_hook is not None:
                 self.kill_hook()
             os._exit(9)
